@@ -140,6 +140,10 @@ def gen_layout(rng, tname=None):
                 items.append(("dataref", rng.below(nlab), 4))
             else:
                 items.append(("align", rng.choice([2, 4, 16])))
+    if t.name == "6809" and rng.chance(0.5):
+        # direct-page assumptions in mid-file: state that is set by a statement and must start afresh in every pass
+        for _ in range(rng.randint(1, 3)):
+            items.append(("assume", rng.choice([org >> 8, (org >> 8) + 1, 0, (org >> 8) + rng.below(3)]) & 0xFF))
     rng.shuffle(items)
     # worst-case positions (max sizes) to keep short-only branches encodable
     def maxsize(it):
@@ -155,6 +159,8 @@ def gen_layout(rng, tname=None):
             return 3
         if it[0] == "bytes":
             return len(it[1])
+        if it[0] == "assume":
+            return 0
         return it[1]
     pos = [0]
     for it in items:
@@ -212,6 +218,8 @@ def render(lay):
             L.append("\t%s %s" % (t.byte, ",".join(str(v) for v in it[1])))
         elif k == "align":
             L.append("\talign %d" % it[1])
+        elif k == "assume":
+            L.append("\tassume dpr:%d" % it[1])
     # reference table of every label
     for i in range(lay["nlab"]):
         L.append("\t%s l%d" % (t.word, i))
@@ -247,6 +255,7 @@ def decode(lay, img):
         return v - (1 << bits) if v & (1 << (bits - 1)) else v
 
     items = list(lay["items"]) + [["dataref", i, 2] for i in range(lay["nlab"])]
+    dpr = 0  # direct page in force: 0 at the start of the file, then what the last ASSUME above the statement said
     for idx, it in enumerate(items):
         k = it[0]
         if t.align == 2 and (a & 1) and k in ("ref", "dataref", "label", "selfref", "pcref"):
@@ -268,6 +277,8 @@ def decode(lay, img):
             a += len(it[1])
         elif k == "align":
             a = (a + it[1] - 1) // it[1] * it[1]
+        elif k == "assume":
+            dpr = it[1]
         elif k == "dataref":
             w = it[2]
             refs.append((idx, "data word", val(rd(a, w)), it[1], a))
@@ -305,7 +316,7 @@ def decode(lay, img):
                     if rd(a, len(opc)) == opc:
                         p = a + len(opc)
                         if kind == "z8":
-                            refs.append((idx, "%s direct" % mn, rd(p, 1)[0], it[2], a))
+                            refs.append((idx, "%s direct" % mn, (dpr << 8) | rd(p, 1)[0], it[2], a))
                             a = p + 1
                         elif kind == "a16":
                             refs.append((idx, "%s extended" % mn, val(rd(p, 2)), it[2], a))
